@@ -231,7 +231,7 @@ pub fn gen(ctx: &mut Ctx) -> Vec<String> {
         for fine in [false, true] {
             let sim = Sim::new(*b, fine, *ns, *pre, progs);
             let mut all = vec![]; all_schedules(&sim, &mut vec![], &mut all, 50000);
-            let cap = ctx.budget(250, 4000);
+            let cap = ctx.budget(150, 4000);
             if all.len() <= cap { ctx.count("shapes_enumerated_exhaustively"); }
             let stride = (all.len() + cap - 1) / cap.max(1);
             let picked: Vec<&Vec<usize>> = all.iter().step_by(stride.max(1)).collect();
@@ -240,7 +240,7 @@ pub fn gen(ctx: &mut Ctx) -> Vec<String> {
         }
     }
     // (2) random programs: 2 threads x 2 ops, 3 threads x 1-2 ops, 1-2 shards, small buffers
-    let n = ctx.budget(1200, 12000);
+    let n = ctx.budget(700, 12000);
     let mut blocked_budget = ctx.budget(4, 20);
     for _ in 0..n {
         let nt = 2 + ctx.below(2);
